@@ -458,3 +458,6 @@ def check_case(case):
 
 
 PARTS = [Part("conv", check_case, {"quick": 3000, "thorough": 60000}, strategy=st_case)]
+
+# thorough tier: the same Hypothesis test driven by atheris/libFuzzer (coverage on sigpy.conv/linop plain-Python code)
+FUZZ = {"parts": ["conv"], "runs": 64000}
